@@ -394,11 +394,106 @@ def run_conics(c):
     return ck.result()
 
 
+# ------------------------------------------------------------------------------------------- families of constructed transformations
+@st.composite
+def family_case(draw, tier="quick"):
+    return {"what": draw(st.sampled_from(["scaling", "scaling", "translation", "affine", "rotation_quarter"])), "d": draw(st.sampled_from([2, 2, 3])), "n": draw(st.sampled_from([3, 63, 64, 100])),
+            "v": [draw(C.ints(6)) for _ in range(12)], "floats": draw(st.sampled_from([False, False, True])), "grid": draw(st.booleans())}
+
+
+def run_family(c):
+    """a family of n constructed transformations (scalings k -> factors, translations, integer affine maps, quarter turns; arguments given as
+    python integers, so that the matrices are integer arrays, or as floats) collected in one TransformationCollection: each member maps
+    a point, a hyperplane and (in the plane) a conic as the definition says - x -> M x, h -> M^-T h, Q -> M^-T Q M^-1 - and the inverse of
+    the family is the family of the inverses"""
+    what, d, n, v = c["what"], c["d"], c["n"], [int(x) for x in c["v"]]
+    if d not in (2, 3) or n not in (3, 63, 64, 100) or len(v) != 12:
+        raise Skip("malformed")
+    num = (lambda x: float(x)) if c["floats"] else (lambda x: int(x))
+    members, mats = [], []
+    for i in range(n):
+        a, b, e = 1 + (i + v[0]) % 7, 1 + (i // 7 + v[1]) % 5, 1 + (i // 3 + v[2]) % 4
+        if (i + v[3]) % 3 == 0:
+            a = -a
+        if what == "scaling":
+            args = [num(a), num(b)] + ([num(e)] if d == 3 else [])
+            t, M = scaling(*args), np.diag([float(x) for x in args] + [1.0])
+        elif what == "translation":
+            args = [num(a - 4), num(b * 2 - 5)] + ([num(e)] if d == 3 else [])
+            t, M = translation(*args), np.eye(d + 1)
+            M[:d, -1] = args
+        elif what == "affine":
+            A = np.array(Z.int_matrix([x + (i % 5) * (j == 0) for j, x in enumerate(v)], d), dtype=float)
+            if abs(np.linalg.det(A)) < 0.5:
+                A = np.eye(d) * (2 + i % 3)
+            off = [num(a - 3), num(b)] + ([num(e)] if d == 3 else [])
+            t = affine_transform(A if c["floats"] else A.astype(int), offset=off)
+            M = np.eye(d + 1)
+            M[:d, :d], M[:d, -1] = A, off
+        elif what == "rotation_quarter":
+            if d == 3:
+                raise Skip("plane only")
+            t = rotation(i * np.pi / 2) * scaling(num(a), num(b))
+            k = i % 4
+            R = np.array([[1, 0], [0, 1]]) if k == 0 else np.array([[0, -1], [1, 0]]) if k == 1 else np.array([[-1, 0], [0, -1]]) if k == 2 else np.array([[0, 1], [-1, 0]])
+            M = np.eye(3)
+            M[:2, :2] = R @ np.diag([float(a), float(b)])
+        else:
+            raise Skip("malformed")
+        members.append(t)
+        mats.append(M)
+    site = f"family:{what}{d}:n{n}" + (":float" if c["floats"] else ":int")
+    T, f = call(site + ":collect", TransformationCollection, members)
+    if f:
+        return [f]
+    ck = Checker()
+    mats = np.array(mats)
+    minv = np.linalg.inv(mats)
+    if c["grid"] and n in (64, 100):
+        gshape = (8, 8) if n == 64 else (4, 25)
+        T = TransformationCollection(np.asarray(T.array).reshape(gshape + (d + 1, d + 1)))
+        site += ":grid"
+    else:
+        gshape = (n,)
+    p = np.array([float(x) for x in v[4:4 + d]] + [1.0])
+    h = np.array([float(x) for x in v[7:7 + d]] + [float(v[11] or 1)])
+    if not np.any(h[:d]):
+        h[0] = 1.0
+    objs = [("point", PointCollection(np.broadcast_to(p, gshape + (d + 1,)).copy()), np.einsum("nij,j->ni", mats, p), 1),
+            ("hyperplane", (G.LineCollection if d == 2 else G.PlaneCollection)(np.broadcast_to(h, gshape + (d + 1,)).copy()), np.einsum("nji,j->ni", minv, h), 1)]
+    if d == 2:
+        q = np.diag([1.0, 1.0, -4.0]) + 0.0
+        q[0, 2] = q[2, 0] = float(v[5] % 3)
+        objs.append(("conic", G.QuadricCollection(np.broadcast_to(q, gshape + (3, 3)).copy()), np.einsum("nji,jk,nkl->nil", minv, q, minv), 2))
+    for name, obj, want, nax in objs:
+        r, f = call(site + f":{name}", lambda: T * obj)
+        if f:
+            ck.add(f)
+            continue
+        got = np.asarray(r.array).reshape((n,) + want.shape[1:]) if np.asarray(r.array).size == want.size else None
+        if not ck.check(got is not None, site + f":{name}:shape", np.asarray(r.array).shape):
+            continue
+        bad = [i for i in range(n) if not C.peq_all(got[i], want[i], nax, 1e-9)]
+        ck.check(not bad, site + f":{name}:image-of-every-member", (len(bad), bad[:3], got[bad[0]].tolist() if bad else None, want[bad[0]].tolist() if bad else None))
+    inv, f = call(site + ":inverse", T.inverse)
+    if f:
+        ck.add(f)
+    else:
+        got = np.asarray(inv.array).reshape(mats.shape) if np.asarray(inv.array).size == mats.size else None
+        if ck.check(got is not None, site + ":inverse:shape", np.asarray(inv.array).shape):
+            bad = [i for i in range(n) if not C.peq_all(got[i], minv[i], 2, 1e-9)]
+            ck.check(not bad, site + ":inverse-of-every-member", (len(bad), bad[:3]))
+    return ck.result()
+
+
 LAWS = [
     Law("constructors", lambda tier: basic_case(tier), run_basic, basic_nontrivial, lambda c: ([("many-turns" if c.get("turns", 0) >= 400 else "few-turns")] if c["what"].startswith("rotation") else []) + [c["what"], c["form"], "int-dtype" if c.get("idt") else "float-dtype"], {"quick": 2500, "thorough": 40000},
         "translation, rotation (2D, axis), scaling, reflection, affine_transform, identity vs Cartesian closed forms", shard=400),
     Law("from_points", lambda tier: frame_case(tier), run_frame, lambda c: True, frame_labels, {"quick": 1200, "thorough": 20000},
         "Transformation.from_points maps each of the n+2 source points to its target", shard=400, mandatory=("has-infinite", "d2", "d3")),
+    Law("constructed_families", lambda tier: family_case(tier), run_family, lambda c: c["n"] >= 63, lambda c: [c["what"], f"d{c['d']}", f"n{c['n']}", "float" if c["floats"] else "int"] + ([f"int:n>=64:d{c['d']}"] if not c["floats"] and c["n"] >= 64 else []) + (["grid"] if c["grid"] and c["n"] >= 64 else []),
+        {"quick": 300, "thorough": 5000}, "families of 3 / 63 / 64 / 100 scalings, translations, integer affine maps, quarter turns (integer or float arguments) as one TransformationCollection: images of a point, a hyperplane and a conic and the inverse, member by member", shard=60,
+        mandatory=("int:n>=64:d2", "int:n>=64:d3", "grid")),
     Law("from_points_and_conics", lambda tier: conic_case(tier), run_conics, lambda c: True, lambda c: [], {"quick": 400, "thorough": 8000},
         "from_points_and_conics maps the three points and the first conic onto the second", shard=200),
 ]
